@@ -123,6 +123,12 @@ def elem_type(kind, field, node=None):
         return 'arglike'
     if field == '_all' and kind == 'Compare':
         return 'cmpelt'
+    if field == '_all' and kind == 'MatchMapping':
+        return 'mmapelt'
+    if field == '_attrs':
+        return 'attrelt'
+    if field == '_all' and kind == 'arguments':
+        return 'argelt'
     info = grammar.field_info(kind, field)
     if info is None:
         return None
@@ -145,6 +151,9 @@ POOLS = {
     'match_case': snippets.MATCH_CASE, 'pattern': snippets.PATTERN, 'comprehension': snippets.COMPREHENSION,
     'type_param': snippets.TYPE_PARAM, 'identifier': snippets.IDENT, 'dictelt': snippets.DICT_ELT,
     'arglike': ['x', 'f(y)', 'p + q', '*st', 'kw=1', 'k2=a + b', '**kws', '(i, j)', 'lambda: z', 'ü', '*(a or b)'],
+    'mmapelt': ['1: pa', "'k': [x, y]", 'A.b: _', '-2: None', '**rr', '3: C(q)'],
+    'attrelt': ['pp', '1', 'kk=1', 'k2=[a, b]', '_', 'k3=C(x=1)', "'s'"],
+    'argelt': ['na', 'nb: int', 'nc=1', 'nd: str = "s"', '*va', '**kwa', 'ü=2'],
     'cmpelt': ['x', 'f(y)', 'p + q', '-n', 'a.b', '(p < q)', '(i, j)', 'not n', 'p and q', 'c[d]'],
 }
 
@@ -184,6 +193,19 @@ def parse_elem(et, src):
         return ((c.args or c.keywords)[0],)
     if et == 'cmpelt':
         return (snippets.parse_elem('expr', src),)
+    if et == 'mmapelt':
+        m = ast.parse('match x:\n case {' + src + '}: pass').body[0].cases[0].pattern
+        if not isinstance(m, ast.MatchMapping) or len(m.keys) + (m.rest is not None) != 1:
+            raise SyntaxError('not a single mapping pattern element')
+        return (m.rest,) if m.rest is not None else (m.keys[0], m.patterns[0])
+    if et == 'attrelt':
+        m = ast.parse('match x:\n case C(' + src + '): pass').body[0].cases[0].pattern
+        if not isinstance(m, ast.MatchClass) or len(m.patterns) + len(m.kwd_attrs) != 1:
+            raise SyntaxError('not a single class pattern argument')
+        return (m.patterns[0],) if m.patterns else (m.kwd_attrs[0], m.kwd_patterns[0])
+    if et == 'argelt':
+        a = ast.parse('def f(' + src + '): pass').body[0].args  # validity only; no structural law for arguments._all
+        return (a,)
     return (snippets.parse_elem(PARSE_AS.get(et, et), src),)
 
 
@@ -318,6 +340,14 @@ def candidates(tree):
         elif kind == 'Compare':
             out.append((node, path, '_all', 'list'))
             out.append((node, path, '_all', 'list'))
+        elif kind == 'MatchMapping':
+            out.append((node, path, '_all', 'list'))
+            out.append((node, path, '_all', 'list'))
+        elif kind == 'MatchClass':
+            out.append((node, path, '_attrs', 'list'))
+            out.append((node, path, '_attrs', 'list'))
+        elif kind == 'arguments':
+            out.append((node, path, '_all', 'list'))
     return out
 
 
@@ -354,6 +384,16 @@ def plan_edit(rng: random.Random, tree, weights=None) -> Plan | None:
         elif field == '_all' and kind == 'Compare':
             p.lo = 0
             n = 1 + len(node.comparators)
+        elif field == '_all' and kind == 'MatchMapping':
+            p.lo = 0
+            n = len(node.keys) + (node.rest is not None)
+        elif field == '_attrs':
+            p.lo = 0
+            n = len(node.patterns) + len(node.kwd_attrs)
+        elif field == '_all' and kind == 'arguments':
+            p.lo = 0
+            n = (len(node.posonlyargs) + len(node.args) + (node.vararg is not None) + len(node.kwonlyargs)
+                 + (node.kwarg is not None))
         elif field == '_all':
             p.lo = 0
             n = len(node.keys)
@@ -402,7 +442,7 @@ def plan_edit(rng: random.Random, tree, weights=None) -> Plan | None:
         else:
             p.srcs = [rng.choice(pool)]
     p.view = None
-    if fclass == 'list' and p.et != 'cmpelt' and rng.random() < 0.22:
+    if fclass == 'list' and p.et not in ('cmpelt', 'argelt') and rng.random() < 0.22:
         # the same kind of request made through a sub-view `field[vlo:vhi]`: indices are then relative to the view
         n = p.length
         vlo = rng.choice((None, 0, rng.randint(0, n), rng.randint(0, n), rng.randint(-n - 1, -1) if n else 0))
@@ -421,7 +461,7 @@ def plan_edit(rng: random.Random, tree, weights=None) -> Plan | None:
             else:
                 p.idx = rng.randint(-m - 1, m) if rng.random() < 0.3 else (rng.randrange(m) if m else 0)
     p.codeform = rng.choice(('src', 'src', 'ast', 'fst'))
-    if p.et in ('arglike', 'cmpelt'):
+    if p.et in ('arglike', 'cmpelt', 'mmapelt', 'attrelt', 'argelt'):
         p.codeform = 'src'
     if p.et == 'cmpelt' and p.form == 'slice' and p.srcs:
         # an insertion needs an extra operator (d06 "an extra operator MUST be added"): give one via the `op` option
@@ -528,7 +568,12 @@ def oracle(plan: Plan, pre_src: str, tab: Tables, mode='exec') -> Oracle:
         o.newS = [[0]]
     o.law = True
     o.expValid = True
-    if plan.et in ('arglike', 'cmpelt'):
+    if plan.et == 'argelt':
+        o.law = False  # arguments._all: categories of the new elements depend on markers (d06 "arguments slices"); only
+        o.expCompiles = True  # Sync / atomicity are judged for these requests
+        o.newS = []
+        return o
+    if plan.et in ('arglike', 'cmpelt', 'mmapelt', 'attrelt'):
         # the merged order / the operator choice is not determined by a pure AST: SliceLaw + NothingElse judge the field,
         # the spec (ArglikeOrderOk / OpsLaw) judges ordering and operators; no whole-tree expectation
         o.expCompiles = True
@@ -752,7 +797,7 @@ def choose_entry(plan: Plan, node, rng):
                     ents += ['prepend', 'prepend']
                 ents += ['insert_one']
         return rng.choice(ents)
-    valid_idx = plan.idx is not None and -n <= plan.idx < n and plan.et not in ('identifier', 'arglike')
+    valid_idx = plan.idx is not None and -n <= plan.idx < n and plan.et not in ('identifier', 'arglike', 'mmapelt', 'attrelt', 'argelt')
     if plan.corrupt == 'one_false':
         return 'put'
     if plan.form == 'one':
@@ -982,12 +1027,56 @@ class MiscPlan:
         return {'op': self.op, 'path': self.path, 'kind': self.kind, 'arg': self.arg, 'extra': self.extra, 'misc': True}
 
 
-def plan_misc(rng: random.Random, tree):
+def _redundant_par_nodes(tree, src):
+    """Expression nodes directly wrapped in a pair of grouping parentheses whose removal denotes the same tree
+    (decided with CPython's parser only)."""
+    lines = src.split('\n')
+    out = []
+    t = Tables()
+    base = None
+    for n, p in walk_paths(tree):
+        if not isinstance(n, ast.expr) or not hasattr(n, 'end_col_offset') or _under_ftstr(tree, p):
+            continue
+        try:
+            l0 = lines[n.lineno - 1].encode()
+            l1 = lines[n.end_lineno - 1].encode()
+        except IndexError:
+            continue
+        pre = l0[:n.col_offset].rstrip()
+        post = l1[n.end_col_offset:].lstrip()
+        if not pre.endswith(b'(') or not post.startswith(b')'):
+            continue
+        a = len(pre) - 1
+        b = len(l1) - len(post)
+        trial = [x.encode() for x in lines]
+        if n.lineno == n.end_lineno:
+            trial[n.lineno - 1] = l0[:a] + b' ' + l0[a + 1:b] + b' ' + l0[b + 1:]
+        else:
+            trial[n.lineno - 1] = l0[:a] + b' ' + l0[a + 1:]
+            trial[n.end_lineno - 1] = l1[:b] + b' ' + l1[b + 1:]
+        try:
+            t2 = ast.parse(b'\n'.join(trial).decode())
+        except (SyntaxError, ValueError, UnicodeDecodeError):
+            continue
+        if base is None:
+            base = t.sid(ast.parse(src))
+        if t.sid(t2) == base:
+            out.append((n, p))
+    return out
+
+
+def plan_misc(rng: random.Random, tree, src=None, unpar_p=0.3):
     nodes = [(n, p) for n, p in walk_paths(tree)]
     r = rng.random()
     m = MiscPlan()
     m.extra = {}
-    if r < 0.4:
+    if src is not None and rng.random() < unpar_p:
+        c = _redundant_par_nodes(tree, src)
+        if not c:
+            return None
+        n, p = rng.choice(c)
+        m.op, m.arg = 'unpar', None
+    elif r < 0.4:
         c = [(n, p) for n, p in nodes if isinstance(n, (ast.Module, ast.FunctionDef, ast.AsyncFunctionDef, ast.ClassDef))]
         n, p = rng.choice(c)
         m.op, m.arg = 'put_docstr', rng.choice(DOC_TEXTS)
@@ -1045,6 +1134,8 @@ def execute_misc(m: MiscPlan, root):
             f.put_line_comment(m.arg, **m.extra)
         elif m.op == 'par':
             f.par(**m.extra)
+        elif m.op == 'unpar':
+            f.unpar()
         else:
             raise AssertionError(m.op)
     except Exception as e:  # noqa: BLE001
